@@ -91,6 +91,11 @@ func build(extraFile, extraCat string) *model {
 	c.Add(&idl.Const{Name: "CKM", Type: idl.MapOf(str, idl.SetOf(idl.StructT(cConstMapVal))), Value: idl.VM()})
 	dConstElem := st(m, d, "struct", "DConstElem", fld(1, "v", i32))
 	c.Add(&idl.Const{Name: "CKD", Type: idl.ListOf(idl.StructT(dConstElem)), Value: idl.VL()})
+	// a union in the included file whose member structs are reachable through it alone
+	cUnionOnlyA := st(m, c, "struct", "CUnionOnlyA", fld(1, "v", i32))
+	cUnionOnlyB := st(m, c, "struct", "CUnionOnlyB", fld(1, "v", i32))
+	cUnionOnlyX := st(m, c, "exception", "CUnionOnlyX", fld(1, "m", str))
+	cU2 := st(m, c, "union", "CU2", fld(1, "a", idl.StructT(cUnionOnlyA)), fld(2, "b", idl.ListOf(idl.StructT(cUnionOnlyB))), fld(3, "x", idl.StructT(cUnionOnlyX)))
 	cUnusedA := st(m, c, "struct", "CUnusedA", fld(1, "v", i32))
 	st(m, c, "struct", "CUnusedB", fld(1, "a", idl.StructT(cUnusedA)))
 	st(m, c, "union", "CUnusedU", fld(1, "v", i32))
@@ -138,7 +143,7 @@ func build(extraFile, extraCat string) *model {
 	mSelf.Fields = append(mSelf.Fields, &idl.Field{ID: 2, ExplicitID: true, Name: "next", Type: idl.StructT(mSelf), Req: idl.ReqOptional})
 	mainSvc := &idl.Service{Name: "Main", Extends: cBase, Functions: []*idl.Function{
 		{Name: "get", Ret: idl.StructT(bMid), Args: []*idl.Field{fld(1, "a", idl.StructT(mArg))}, Throws: []*idl.Field{fld(1, "e", idl.StructT(mErr))}},
-		{Name: "other", Args: []*idl.Field{fld(1, "x", idl.StructT(mOnlyOther)), fld(2, "s", idl.StructT(mSelf))}},
+		{Name: "other", Args: []*idl.Field{fld(1, "x", idl.StructT(mOnlyOther)), fld(2, "s", idl.StructT(mSelf)), fld(3, "u", idl.StructT(cU2))}},
 		{Name: "get_more", Ret: i32}}}
 	mainf.Add(mainSvc)
 	m.svcs["Main"] = mainSvc
